@@ -106,27 +106,26 @@ theorem decode_cases (s0 : UInt8) (rest : Bytes) :
           · left; exact ⟨rfl, by omega⟩
 
 /-- Decoding depends only on the bytes of a valid encoding. -/
-#exit
 theorem decode_valid {p : Bytes} {r : Nat} (h : ValidEnc p r) (tl : Bytes) :
     decodeRune (p ++ tl) = (r, p.length) := by
   refine h.cases ?_ ?_ ?_ ?_
-  · intro b0 hp h1 hr; subst hp hr
-    simp [decodeRune, h1]
-  · intro b0 b1 hp h1 h2 h3 h4 hr; subst hp hr
+  · intro b0 hp h1 er; subst hp
+    simp [decodeRune, h1, er]
+  · intro b0 b1 hp h1 h2 h3 h4 er; subst hp
     have a1 : ¬ b0.toNat < 0x80 := by omega
     have a2 : ¬ b0.toNat < 0xC2 := by omega
-    simp [decodeRune, a1, a2, h2, h3, h4]
-  · intro b0 b1 b2 hp h1 h2 h3 h4 h5 h6 hr; subst hp hr
+    simp [decodeRune, a1, a2, h2, h3, h4, er]
+  · intro b0 b1 b2 hp h1 h2 h3 h4 h5 h6 er; subst hp
     have a1 : ¬ b0.toNat < 0x80 := by omega
     have a2 : ¬ b0.toNat < 0xC2 := by omega
     have a3 : ¬ b0.toNat < 0xE0 := by omega
-    simp [decodeRune, a1, a2, a3, h2, h3, h4, h5, h6]
-  · intro b0 b1 b2 b3 hp h1 h2 h3 h4 h5 h6 h7 h8 hr; subst hp hr
+    simp [decodeRune, a1, a2, a3, h2, h3, h4, h5, h6, er]
+  · intro b0 b1 b2 b3 hp h1 h2 h3 h4 h5 h6 h7 h8 er; subst hp
     have a1 : ¬ b0.toNat < 0x80 := by omega
     have a2 : ¬ b0.toNat < 0xC2 := by omega
     have a3 : ¬ b0.toNat < 0xE0 := by omega
     have a4 : ¬ b0.toNat < 0xF0 := by omega
-    simp [decodeRune, a1, a2, a3, a4, h2, h3, h4, h5, h6, h7, h8]
+    simp [decodeRune, a1, a2, a3, a4, h2, h3, h4, h5, h6, h7, h8, er]
 
 theorem accLo_ge (b : Nat) : 0x80 ≤ accLo b := by
   unfold accLo; split
@@ -140,20 +139,19 @@ theorem accHi_le (b : Nat) : accHi b ≤ 0xBF := by
 /-- `WriteRune` of a decoded rune gives back the bytes it was decoded from. -/
 theorem encode_valid {p : Bytes} {r : Nat} (h : ValidEnc p r) : encodeRune r = p := by
   refine h.cases ?_ ?_ ?_ ?_
-  · intro b0 hp h1 hr; subst hp hr
-    simp [encodeRune, h1]
-  · intro b0 b1 hp h1 h2 h3 h4 hr; subst hp hr
-    have e1 : ¬ (b0.toNat - 0xC0) * 64 + (b1.toNat - 0x80) < 0x80 := by omega
-    have e2 : (b0.toNat - 0xC0) * 64 + (b1.toNat - 0x80) < 0x800 := by omega
-    have e3 : 0xC0 + ((b0.toNat - 0xC0) * 64 + (b1.toNat - 0x80)) / 64 = b0.toNat := by omega
-    have e4 : 0x80 + ((b0.toNat - 0xC0) * 64 + (b1.toNat - 0x80)) % 64 = b1.toNat := by omega
+  · intro b0 hp h1 er; subst hp
+    simp [encodeRune, h1, er]
+  · intro b0 b1 hp h1 h2 h3 h4 er; subst hp
+    have e1 : ¬ r < 0x80 := by omega
+    have e2 : r < 0x800 := by omega
+    have e3 : 0xC0 + r / 64 = b0.toNat := by omega
+    have e4 : 0x80 + r % 64 = b1.toNat := by omega
     simp only [encodeRune, e1, e2, if_true, if_false, e3, e4, ofNat_toNat]
-  · intro b0 b1 b2 hp h1 h2 h3 h4 h5 h6 hr; subst hp hr
+  · intro b0 b1 b2 hp h1 h2 h3 h4 h5 h6 er; subst hp
     have l1 := accLo_ge b0.toNat
     have l2 := accHi_le b0.toNat
     have l3 : b0.toNat = 0xE0 → 0xA0 ≤ b1.toNat := by intro e; simp [accLo, e] at h3; exact h3
     have l4 : b0.toNat = 0xED → b1.toNat ≤ 0x9F := by intro e; simp [accHi, e] at h4; exact h4
-    generalize hr : (b0.toNat - 0xE0) * 4096 + (b1.toNat - 0x80) * 64 + (b2.toNat - 0x80) = r
     have e1 : ¬ r < 0x80 := by omega
     have e2 : ¬ r < 0x800 := by omega
     have e3 : ¬ (r > maxRune ∨ (0xD800 ≤ r ∧ r ≤ 0xDFFF)) := by unfold maxRune; omega
@@ -162,13 +160,11 @@ theorem encode_valid {p : Bytes} {r : Nat} (h : ValidEnc p r) : encodeRune r = p
     have e6 : 0x80 + r / 64 % 64 = b1.toNat := by omega
     have e7 : 0x80 + r % 64 = b2.toNat := by omega
     simp only [encodeRune, e1, e2, e3, e4, if_true, if_false, e5, e6, e7, ofNat_toNat]
-  · intro b0 b1 b2 b3 hp h1 h2 h3 h4 h5 h6 h7 h8 hr; subst hp hr
+  · intro b0 b1 b2 b3 hp h1 h2 h3 h4 h5 h6 h7 h8 er; subst hp
     have l1 := accLo_ge b0.toNat
     have l2 := accHi_le b0.toNat
     have l3 : b0.toNat = 0xF0 → 0x90 ≤ b1.toNat := by intro e; simp [accLo, e] at h3; exact h3
     have l4 : b0.toNat = 0xF4 → b1.toNat ≤ 0x8F := by intro e; simp [accHi, e] at h4; exact h4
-    generalize hr : (b0.toNat - 0xF0) * 262144 + (b1.toNat - 0x80) * 4096 +
-      (b2.toNat - 0x80) * 64 + (b3.toNat - 0x80) = r
     have e1 : ¬ r < 0x80 := by omega
     have e2 : ¬ r < 0x800 := by omega
     have e3 : ¬ (r > maxRune ∨ (0xD800 ≤ r ∧ r ≤ 0xDFFF)) := by unfold maxRune; omega
@@ -182,13 +178,13 @@ theorem encode_valid {p : Bytes} {r : Nat} (h : ValidEnc p r) : encodeRune r = p
 theorem valid_le_maxRune {p : Bytes} {r : Nat} (h : ValidEnc p r) : r ≤ maxRune := by
   unfold maxRune
   refine h.cases ?_ ?_ ?_ ?_
-  · intro b0 hp h1 hr; subst hp hr
+  · intro b0 hp h1 er; subst hp
     omega
-  · intro b0 b1 hp h1 h2 h3 h4 hr; subst hp hr
+  · intro b0 b1 hp h1 h2 h3 h4 er; subst hp
     omega
-  · intro b0 b1 b2 hp h1 h2 h3 h4 h5 h6 hr; subst hp hr
+  · intro b0 b1 b2 hp h1 h2 h3 h4 h5 h6 er; subst hp
     have l2 := accHi_le b0.toNat; omega
-  · intro b0 b1 b2 b3 hp h1 h2 h3 h4 h5 h6 h7 h8 hr; subst hp hr
+  · intro b0 b1 b2 b3 hp h1 h2 h3 h4 h5 h6 h7 h8 er; subst hp
     have l2 := accHi_le b0.toNat
     have l4 : b0.toNat = 0xF4 → b1.toNat ≤ 0x8F := by intro e; simp [accHi, e] at h4; exact h4
     omega
@@ -197,15 +193,15 @@ theorem valid_le_maxRune {p : Bytes} {r : Nat} (h : ValidEnc p r) : r ≤ maxRun
 theorem valid_ascii {p : Bytes} {r : Nat} (h : ValidEnc p r) (hr : r < 0x80) :
     ∃ b : UInt8, p = [b] ∧ b.toNat = r := by
   refine h.cases ?_ ?_ ?_ ?_
-  · intro b0 hp h1 hr; subst hp hr
+  · intro b0 hp h1 er; subst hp
     exact ⟨b0, rfl, rfl⟩
-  · intro b0 b1 hp h1 h2 h3 h4 hr; subst hp hr
+  · intro b0 b1 hp h1 h2 h3 h4 er; subst hp
     omega
-  · intro b0 b1 b2 hp h1 h2 h3 h4 h5 h6 hr; subst hp hr
+  · intro b0 b1 b2 hp h1 h2 h3 h4 h5 h6 er; subst hp
     have l1 := accLo_ge b0.toNat
     have l3 : b0.toNat = 0xE0 → 0xA0 ≤ b1.toNat := by intro e; simp [accLo, e] at h3; exact h3
     omega
-  · intro b0 b1 b2 b3 hp h1 h2 h3 h4 h5 h6 h7 h8 hr; subst hp hr
+  · intro b0 b1 b2 b3 hp h1 h2 h3 h4 h5 h6 h7 h8 er; subst hp
     have l1 := accLo_ge b0.toNat
     have l3 : b0.toNat = 0xF0 → 0x90 ≤ b1.toNat := by intro e; simp [accLo, e] at h3; exact h3
     omega
@@ -214,13 +210,13 @@ theorem valid_high {p : Bytes} {r : Nat} (h : ValidEnc p r) (hr : 0x80 ≤ r) :
     ∀ b ∈ p, 0x80 ≤ b.toNat := by
   have l1 := fun b => accLo_ge b
   refine h.cases ?_ ?_ ?_ ?_
-  · intro b0 hp h1 hr; subst hp hr
+  · intro b0 hp h1 er; subst hp
     omega
-  · intro b0 b1 hp h1 h2 h3 h4 hr; subst hp hr
+  · intro b0 b1 hp h1 h2 h3 h4 er; subst hp
     intro b hb; simp at hb; rcases hb with rfl | rfl <;> omega
-  · intro b0 b1 b2 hp h1 h2 h3 h4 h5 h6 hr; subst hp hr
+  · intro b0 b1 b2 hp h1 h2 h3 h4 h5 h6 er; subst hp
     intro b hb; simp at hb; have := l1 b0.toNat; rcases hb with rfl | rfl | rfl <;> omega
-  · intro b0 b1 b2 b3 hp h1 h2 h3 h4 h5 h6 h7 h8 hr; subst hp hr
+  · intro b0 b1 b2 b3 hp h1 h2 h3 h4 h5 h6 h7 h8 er; subst hp
     intro b hb; simp at hb; have := l1 b0.toNat; rcases hb with rfl | rfl | rfl | rfl <;> omega
 
 theorem valid_ne_nil {p : Bytes} {r : Nat} (h : ValidEnc p r) : p ≠ [] := by
